@@ -35,7 +35,7 @@ def _ops(s):
 
 
 def _overlap(dump):
-    """falcon's `sections` answer: entries must be ascending, pairwise disjoint, non-empty"""
+    """falcon's `sections` answer: entries must be in ascending order and pairwise disjoint"""
     if dump in ("-", "skipped", "panic"):
         return False
     prev_end = -1
@@ -46,7 +46,7 @@ def _overlap(dump):
         except ValueError:
             return True
         ln = len(hx) // 2
-        if a < prev_end or ln == 0:
+        if a < prev_end:
             return True
         prev_end = a + ln
     return False
@@ -97,7 +97,11 @@ def signature(c):
     req, impl = _ops(c.req), _ops(c.impl)
     op = req[i].split(" ")[0] if i < len(req) else "?"
     got = _kind(impl[i]) if i < len(impl) else "?"
-    return f"{ID}/{c.cls}/{op}/{got}"
+    cls = c.cls
+    if "/top" in cls.replace("topwin", ""):
+        # histories holding a region that contains the byte 2^64-1: one family, whatever else they contain
+        cls = "topwin/top"
+    return f"{ID}/{cls}/{op}/{got}"
 
 
 def nontrivial(c):
